@@ -18,13 +18,13 @@ WORK = os.environ.get("VERIF_WORK") or os.path.join(ROOT, "work")
 # which drivers exercise which unit / property
 UNIT_DRIVERS = {
     "cols": ["cols"], "rows": ["rows"], "delegates": ["cols", "rows"], "colcodec": ["colcodec"], "dates": ["dates"],
-    "errnames": ["errnames"], "fntables": ["fnnames"], "parens": ["parens"], "boolentry": ["entry"], "entrystyle": ["entry"], "refshift": ["refshift"], "refarms": ["refshift"], "strenv": ["refshift"], "dispsites": ["refshift"],
+    "errnames": ["errnames"], "fntables": ["fnnames"], "parens": ["parens"], "xmlescape": ["x:roundtrip"], "xlsxpanic": ["x:importcrash"], "boolentry": ["entry"], "entrystyle": ["entry"], "refshift": ["refshift"], "refarms": ["refshift"], "strenv": ["refshift"], "dispsites": ["refshift"],
     "colshift": ["refshift"], "finite": ["finite"], "atomic": ["atomic"], "modelatomic": ["atomic"], "hist": ["history"],
     "queue": ["history"], "arms": ["history", "select"], "record": ["history"], "select": ["select"],
     "uisel": ["selinv", "atomic"], "nav": ["selinv"], "argidx": ["builtins"], "styles": ["styles"], "f4": ["f4"],
 }
 PROP_DRIVERS = {
-    "C01": ["history"], "C02": ["history"], "C03": ["history"], "C04": ["atomic"], "C08": ["finite"], "C09": ["parens"], "C18": ["entry"], "C11": ["colcodec", "builtins", "f4"],
+    "C01": ["history"], "C02": ["history"], "C03": ["history"], "C04": ["atomic"], "C08": ["finite"], "C09": ["parens"], "C18": ["entry"], "C24": ["x:roundtrip"], "C25": ["x:importcrash"], "C11": ["colcodec", "builtins", "f4"],
     "C12": ["refshift"], "C13": ["refshift"], "C14": ["refshift"], "C15": [], "C17": [], "C21": ["dates"], "C22": ["colcodec"],
     "C23": ["errnames", "fnnames"], "C27": ["cols", "rows"], "C28": ["select", "selinv"], "C29": ["cols", "rows"], "C30": ["styles", "cols", "rows"], "C33": [], "C34": ["f4"],
 }
@@ -52,11 +52,29 @@ def run_drivers(drivers, timeout=1500):
     t2 = re.sub(r"members\s*=\s*\[[^\]]*\]", 'members = ["base"]', t, flags=re.S)
     t2 = re.sub(r"exclude\s*=\s*\[[^\]]*\]", 'exclude = []', t2, flags=re.S)
     open(ct, "w").write(t2)
-    env = dict(os.environ, CARGO_NET_OFFLINE="true", CARGO_TARGET_DIR=os.path.join(WORK, "replay_target"), VERIF_DRIVERS=",".join(drivers))
+    xdrivers = [d for d in drivers if d.startswith("x:")]          # drivers that live in the xlsx crate (C24 / C25)
+    bdrivers = [d for d in drivers if not d.startswith("x:")]
+    env = dict(os.environ, CARGO_NET_OFFLINE="true", CARGO_TARGET_DIR=os.path.join(WORK, "replay_target"), VERIF_DRIVERS=",".join(bdrivers))
     t0 = time.time()
-    p = subprocess.run(["cargo", "test", "--offline", "-p", "ironcalc_base", "--lib", "verif_replay::t::replay", "--", "--nocapture", "--test-threads", "1"],
-                       cwd=src, env=env, capture_output=True, text=True, timeout=timeout)
-    out = p.stdout + "\n" + p.stderr
+    out = ""
+    if bdrivers:
+        p = subprocess.run(["cargo", "test", "--offline", "-p", "ironcalc_base", "--lib", "verif_replay::t::replay", "--", "--nocapture", "--test-threads", "1"],
+                           cwd=src, env=env, capture_output=True, text=True, timeout=timeout)
+        out += p.stdout + "\n" + p.stderr
+    if xdrivers:
+        t3 = re.sub(r"members\s*=\s*\[[^\]]*\]", 'members = ["base", "xlsx"]', t2, flags=re.S)
+        open(ct, "w").write(t3)
+        shutil.copy(os.path.join(ROOT, "replay_src", "verif_replay_xlsx.rs"), os.path.join(src, "xlsx", "tests", "verif_replay_xlsx.rs"))
+        probe = os.path.join(WORK, "import_probe")
+        os.makedirs(probe, exist_ok=True)
+        mk = subprocess.run(["python3", os.path.join(ROOT, "tools", "import_probe", "make_files.py"), probe, os.path.join(src, "xlsx", "tests", "example.xlsx")],
+                            capture_output=True, text=True)
+        if mk.returncode != 0:
+            raise RuntimeError("import probe files could not be built: " + mk.stderr[-300:])
+        env2 = dict(env, VERIF_DRIVERS=",".join(xdrivers), VERIF_PROBE_DIR=probe)
+        p = subprocess.run(["cargo", "test", "--offline", "-p", "ironcalc", "--test", "verif_replay_xlsx", "--", "--nocapture", "--test-threads", "1"],
+                           cwd=src, env=env2, capture_output=True, text=True, timeout=timeout)
+        out += p.stdout + "\n" + p.stderr
     res = {}
     for d in drivers:
         m = re.search(r"REPLAY-DRIVER " + re.escape(d) + r" failing_inputs=(\d+)", out)
